@@ -306,6 +306,7 @@ func runC16(t *testing.T, sched simrt.Schedule, prog c16Prog) ([]Violation, RunS
 			ups = keep
 		}
 		wasLinked := map[types.Uid]bool{}
+		unlinkedNow := map[types.Uid]bool{} // uploads whose last link the current action removes: collectable within it
 		collectable := func(u *c16Up) bool { return !wasLinked[u.ID] && w.rt.Now()-u.At > time.Hour }
 		var linkedNow func(id types.Uid) bool
 		var pinCheck func(id types.Uid) string
@@ -326,6 +327,14 @@ func runC16(t *testing.T, sched simrt.Schedule, prog c16Prog) ([]Violation, RunS
 					continue
 				}
 				if mayBeGone[u.ID] {
+					if row == nil && err != nil && !unlinkedNow[u.ID] {
+						continue // (the wait branch does its own bookkeeping)
+					}
+					if row == nil && err != nil {
+						simrt.Probe("c16.collected")
+						collectedNow++
+						dropUp(u.ID)
+					}
 					continue
 				}
 				if row == nil && err != nil && collectable(u) {
@@ -685,7 +694,17 @@ func runC16(t *testing.T, sched simrt.Schedule, prog c16Prog) ([]Violation, RunS
 				if s := oc.Sents[len(oc.Sents)-1]; s.Code >= 200 && s.Code < 300 {
 					msgPins = map[types.Uid]int{}
 				}
-				verifyStore(where, nil) // unlinking removes nothing by itself
+				// unlinking removes nothing by itself, but a collector tick may fall into the same action: an upload older
+				// than the grace hour whose last link this action removed may be gone already
+				for k := range unlinkedNow {
+					delete(unlinkedNow, k)
+				}
+				for _, up := range ups {
+					if wasLinked[up.ID] && !linkedNow(up.ID) && w.rt.Now()-up.At > time.Hour {
+						unlinkedNow[up.ID] = true
+					}
+				}
+				verifyStore(where, unlinkedNow)
 			case "wait", "gc":
 				d := time.Duration(a.Wait) * time.Second
 				if a.Kind == "gc" {
